@@ -122,6 +122,28 @@ pub fn check(c: &TypedCase) -> Outcome {
     } else {
         return fail(format!("`{guarded}` does not compile although `{src}` does"));
     }
+    // the same compiled program against a context that has the variables but no functions (Context::empty()): what the
+    // program yields depends on the context it runs against, never on an earlier execution
+    if !c.expr.any(&|x| matches!(x, E::Call(n, ..) if crate::model::eval::HOST_FUNCS.contains(&n.as_str()))) {
+        let mut bare_models = vec![];
+        for early in [false, true] {
+            let mut st = St::new(&vars, vec![]);
+            st.builtins = false;
+            st.host = false;
+            st.exists_one_stops_at_two = early;
+            bare_models.push(crate::model::eval::eval(&c.expr, &mut st));
+        }
+        if !matches!(bare_models[0], Err(Stop::Unsupported(_))) {
+            match sut::run_then_on_empty(&src, &vars) {
+                Ran::Done(g3) => {
+                    if !bare_models.iter().any(|m| agree(m, &g3)) {
+                        return fail(format!("`{src}` executed against Context::default() and then, the same Program, against a context without any function (vars={}): there the reference model gives {:?}, interpreter gives {}", sut::trunc(&format!("{vars:?}"), 400), bare_models[0], g3.show()));
+                    }
+                }
+                other => return fail(format!("`{src}`: second compile: {}", other.show())),
+            }
+        }
+    }
     let ops = c.expr.count(&|x| !matches!(x, E::Lit(_) | E::Var(_)));
     let nt = ops >= 2;
     let mut classes = shape_classes(&c.expr);
@@ -130,6 +152,72 @@ pub fn check(c: &TypedCase) -> Outcome {
         classes.push("short-circuit-or-branch-taken");
     }
     pass_n(nt, classes)
+}
+
+/// a program text together with the tree it has to mean (for spellings the renderer never produces: hexadecimal and
+/// signed literals inside arithmetic)
+#[derive(Clone, Debug, serde::Serialize, serde::Deserialize)]
+pub struct Spelled {
+    pub src: String,
+    pub expr: E,
+}
+
+pub fn check_spelled(c: &Spelled) -> Outcome {
+    let variants = model_variants(&c.expr, &[], &vec![], false);
+    if let Err(Stop::Unsupported(why)) = &variants[0].0 {
+        return Outcome::Skip(why);
+    }
+    match sut::run_src(&c.src, &[]) {
+        Ran::Done(got) if variants.iter().any(|(m, _)| agree(m, &got)) => pass_n(true, vec!["spelled-literal-arithmetic", result_class(&variants[0].0)]),
+        other => fail(format!("`{}` means `{}`, for which the reference model gives {:?}; observed {}", c.src, c.expr.render(), variants[0].0, other.show())),
+    }
+}
+
+fn spelled_cases() -> Vec<Spelled> {
+    let mut out = vec![];
+    let int_sp = |i: i64, k: usize| -> String {
+        let (sign, mag) = (if i < 0 { "-" } else { "" }, i.unsigned_abs());
+        match k {
+            0 => format!("{i}"),
+            1 => format!("{sign}0x{mag:x}"),
+            _ => format!("{sign}0x{mag:X}"),
+        }
+    };
+    let ints = [i64::MIN, i64::MIN + 1, -256, -1, 0, 1, 255, i64::MAX - 1, i64::MAX];
+    for a in ints {
+        for k in 0..3 {
+            let sa = int_sp(a, k);
+            let la = E::Lit(V::Int(a));
+            for (op, sym) in [(Op::Sub, "-"), (Op::Add, "+"), (Op::Mul, "*"), (Op::Div, "/"), (Op::Rem, "%")] {
+                for b in [1i64, -1, 2] {
+                    out.push(Spelled { src: format!("{sa} {sym} {}", int_sp(b, k)), expr: E::bin(op, la.clone(), E::Lit(V::Int(b))) });
+                    out.push(Spelled { src: format!("{} {sym} {sa}", int_sp(b, (k + 1) % 3)), expr: E::bin(op, E::Lit(V::Int(b)), la.clone()) });
+                }
+            }
+            out.push(Spelled { src: format!("{sa} == {}", int_sp(a, (k + 1) % 3)), expr: E::bin(Op::Eq, la.clone(), la.clone()) });
+            out.push(Spelled { src: format!("[{sa}][0] < {}", int_sp(0, k)), expr: E::bin(Op::Lt, E::Index(Box::new(E::List(vec![la.clone()])), Box::new(E::Lit(V::Int(0)))), E::Lit(V::Int(0))) });
+        }
+    }
+    let uint_sp = |u: u64, k: usize| -> String {
+        match k {
+            0 => format!("{u}u"),
+            1 => format!("0x{u:x}u"),
+            _ => format!("0x{u:X}U"),
+        }
+    };
+    for a in [0u64, 1, 255, 1 << 63, u64::MAX - 1, u64::MAX] {
+        for k in 0..3 {
+            let (sa, la) = (uint_sp(a, k), E::Lit(V::UInt(a)));
+            for (op, sym) in [(Op::Sub, "-"), (Op::Add, "+"), (Op::Mul, "*"), (Op::Div, "/"), (Op::Rem, "%")] {
+                for b in [1u64, 2] {
+                    out.push(Spelled { src: format!("{sa} {sym} {}", uint_sp(b, k)), expr: E::bin(op, la.clone(), E::Lit(V::UInt(b))) });
+                    out.push(Spelled { src: format!("{} {sym} {sa}", uint_sp(b, (k + 1) % 3)), expr: E::bin(op, E::Lit(V::UInt(b)), la.clone()) });
+                }
+            }
+            out.push(Spelled { src: format!("{sa} == {}", uint_sp(a, (k + 1) % 3)), expr: E::bin(Op::Eq, la.clone(), la.clone()) });
+        }
+    }
+    out
 }
 
 pub fn run(r: &mut Runner) {
@@ -142,6 +230,7 @@ pub fn run(r: &mut Runner) {
         "the reference evaluator shares the host FPU and Rust's f64 with the interpreter".into(),
         "error classes are compared coarsely (overflow / zero-divisor / no-such-key / undeclared(name) / other)".into(),
     ];
+    r.sweep("hexadecimal-and-signed-literals-in-arithmetic", spelled_cases(), check_spelled);
     let n = r.tier.n(40_000, 2_000_000);
     r.random("typed-programs", 600, n, |u| gen_typed_case(u, 5, false), check);
     for c in ["has:macro", "has:map-literal", "has:conditional", "has:index", "has:in", "has:call", "err:overflow", "err:zero-divisor", "err:no-such-key"] {
